@@ -100,6 +100,28 @@ class Fold(ast.NodeTransformer):
 
     def visit_Call(self, n):
         self.generic_visit(n)
+        # g(**K(a=x, b=y)._asdict())  with K a plain NamedTuple record of the repository  ->  g(a=x, b=y)
+        if self.repo is not None and any(k.arg is None for k in n.keywords):
+            from .normalize import record_fields
+            kws, hit = [], False
+            for k in n.keywords:
+                v = k.value
+                if k.arg is None and isinstance(v, ast.Call) and isinstance(v.func, ast.Attribute) and v.func.attr == "_asdict" and not v.args and not v.keywords \
+                        and isinstance(v.func.value, ast.Call) and isinstance(v.func.value.func, ast.Name):
+                    rec = v.func.value
+                    fields = record_fields(self.repo, self.f.mod, rec.func.id)
+                    if fields is not None and not any(isinstance(a, ast.Starred) for a in rec.args) and all(kk.arg is not None for kk in rec.keywords) \
+                            and len(rec.args) + len(rec.keywords) == len(fields):
+                        vals = dict(zip(fields, rec.args))
+                        vals.update({kk.arg: kk.value for kk in rec.keywords})
+                        if set(vals) == set(fields):
+                            kws += [ast.keyword(arg=fl, value=vals[fl]) for fl in fields]
+                            hit = True
+                            continue
+                kws.append(k)
+            if hit:
+                n.keywords = kws
+                self.changed = True
         # (lambda a, b: E)(x, y)  ->  E[a := x, b := y]
         if isinstance(n.func, ast.Lambda) and not n.keywords and not any(isinstance(a, ast.Starred) for a in n.args):
             la = n.func.args
